@@ -2,7 +2,7 @@
 From Coq Require Import List ZArith Bool.
 From Coq.Strings Require Import Byte.
 Import ListNotations.
-From SV Require Import Text G_sjson C14_Model C14_Lemmas.
+From SV Require Import Text G_sjson C14_Model C14_Lemmas C14_Text C14_TextLemmas.
 
 (* P0: BioBasket.write(fmt='sjson') followed by read_sjson returns the basket with, in every Attr/Meta mapping, exactly the
    keys rejected by the encoder filter removed (strip); everything else -- residues, type, nested metadata with its classes,
@@ -151,3 +151,73 @@ Theorem C14_hook_errors_documented :
   (forall viaread j e, read_any viaread j = Err e -> documented_error e = true \/ e = E_Attribute).
 Proof. exact (conj dec_errors_documented read_errors_documented). Qed.
 Print Assumptions C14_hook_errors_documented.
+
+(* ======== JSON TEXT LAYER (round 7): the bytes json.dump writes and what json.load scans back =================================== *)
+(* json.load(json.dump(t)) = t for EVERY tree (any nesting, any number of elements; floats must be literals float.__repr__ can
+   produce, wfj): the scanner reads the printed text followed by any continuation that does not prolong a number, returns the tree
+   and leaves exactly the continuation; fuel = size of the tree is enough *)
+Theorem C14_text_roundtrip : forall j fuel rest, wfj j = true -> stop_ok rest = true -> jsize j <= fuel ->
+  parse fuel (print j ++ rest) = Some (j, rest).
+Proof. exact parse_print. Qed.
+Print Assumptions C14_text_roundtrip.
+
+(* json.loads(json.dumps(t)) = t; the length of the text is always enough fuel *)
+Theorem C14_loads_dumps : forall j, wfj j = true ->
+  (forall fuel, jsize j <= fuel -> loads fuel (print j) = Some j) /\ loads (S (List.length (print j))) (print j) = Some j.
+Proof. exact (fun j W => conj (fun fuel => loads_print j fuel W) (loads_print_len j W)). Qed.
+Print Assumptions C14_loads_dumps.
+
+(* the text determines the tree: True / 1 / 1.0, null / "null", [] / {} / "" ... are never confused *)
+Theorem C14_print_injective : forall j1 j2, wfj j1 = true -> wfj j2 = true -> print j1 = print j2 -> j1 = j2.
+Proof. exact print_injective. Qed.
+Print Assumptions C14_print_injective.
+
+(* string literals: for every string over code points 0..255 the literal followed by any text is scanned back to the string and
+   that text, and the literal is printable ASCII only (ensure_ascii) *)
+Theorem C14_jstring_roundtrip : forall s rest,
+  jstring s ++ rest = """"%byte :: flat_map esc_char s ++ """"%byte :: rest /\ scan_str (flat_map esc_char s ++ """"%byte :: rest) = Some (s, rest) /\ forallb printable (jstring s) = true.
+Proof. exact (fun s rest => conj (jstring_app s rest) (conj (scan_str_body s rest) (jstring_printable s))). Qed.
+Print Assumptions C14_jstring_roundtrip.
+
+(* the encoder's image is printable and readable whenever the floats of the graph are *)
+Theorem C14_written_tree_is_text : forall b, wfo b = true -> wfj (write_sjson b) = true.
+Proof. exact wfj_write. Qed.
+Print Assumptions C14_written_tree_is_text.
+
+(* THE ROUND TRIP AT BYTE LEVEL: reading the bytes written for a basket of the domain returns the basket with only the keys
+   rejected by the encoder filter removed; through sugar.read the public object graph is equal *)
+Theorem C14_bytes_roundtrip : forall b, wf_C14 b = true -> wfo b = true ->
+  read_bytes (write_bytes b) = Ok (strip b) /\ exists b', write_read_bytes b = Ok b' /\ pub b' = pub b.
+Proof. exact (fun b H W => conj (bytes_roundtrip b H W) (bytes_write_read_public b H W)). Qed.
+Print Assumptions C14_bytes_roundtrip.
+
+(* values json.dump accepts although they are not JSON -- tuples and dict keys that are int / float / bool / None: they come back
+   changed (tuple -> list, key -> str), so json.loads(json.dumps(v)) = v EXACTLY for the values without tuples whose keys are all
+   str; those are therefore outside the property's domain, everything else the quantifier names is inside *)
+Theorem C14_native_roundtrip_iff : forall v j, native v = Some j -> (back j = v <-> json_native v = true).
+Proof. exact native_back_iff. Qed.
+Print Assumptions C14_native_roundtrip_iff.
+
+Theorem C14_nonstr_keys_outside :
+  (forall k t, key_text k = Some t -> is_kstr k = false -> KStr t <> k) /\ key_text (KInt 1) = key_text (KStr (bs "1"%bs)) /\ key_text (KBool true) = key_text (KStr (bs "true"%bs)) /\ key_text KNone = key_text (KStr (bs "null"%bs)).
+Proof. exact (conj nonstr_key_changed key_collision). Qed.
+Print Assumptions C14_nonstr_keys_outside.
+
+Example C14_witness_text :
+  wfj w_json = true /\ loads (jsize w_json) (print w_json) = Some w_json /\ print (JArr [JBool true; JInt 1; JFloat (bs "1.0"%bs); JFloat (bs "nan"%bs); JFloat (bs "-inf"%bs); JStr [xe9; x0a]])
+    = bs "[true, 1, 1.0, NaN, -Infinity, ""\u00e9\n""]"%bs /\
+  loads 9 (bs " [ 1 ,2.5E+3 , -0,""\u00E9\/"" ]  "%bs) = Some (JArr [JInt 1; JFloat (bs "2.5E+3"%bs); JInt 0; JStr [xe9; x2f]]) /\
+  loads 9 (bs "[01]"%bs) = None /\ loads 9 (bs "[1.]"%bs) = None /\ loads 9 (bs "1 2"%bs) = None /\ loads 9 (bs "[+1]"%bs) = None.
+Proof. exact w_json_ok. Qed.
+
+Example C14_witness_native :
+  json_native w_pyv = false /\
+  option_map print (native w_pyv) = Some (bs "{""t"": [1, 2], ""1"": ""a"", ""true"": null, ""null"": [], ""1.5"": false}"%bs) /\
+  option_map back (native w_pyv) =
+    Some (PDict [(KStr (bs "t"%bs), PList [PInt 1; PInt 2]); (KStr (bs "1"%bs), PStr (bs "a"%bs)); (KStr (bs "true"%bs), PNone);
+                 (KStr (bs "null"%bs), PList []); (KStr (bs "1.5"%bs), PBool false)]) /\
+  native (PDict [(KOther, PNone)]) = None.
+Proof. exact w_pyv_ok. Qed.
+
+Example C14_witness_bytes : wfo w_basket = true /\ read_bytes (write_bytes w_basket) = Ok (strip w_basket).
+Proof. exact w_bytes_ok. Qed.
